@@ -450,3 +450,78 @@ def gen_scenarios(rng, n, noise=0.12):
         cases.append(("%s%d" % (sc.__name__[3:], i), out))
         counts[sc.__name__] = counts.get(sc.__name__, 0) + 1
     return cases, counts
+
+
+# ---------------------------------------------------------------- malformed stream (C12)
+def xtok(text):
+    return "x:" + text.encode().hex()
+
+
+BAD_TEXTS = ["abc", "10.0.0.0", "10.0.0.0/33", "300.1.1.1/24", "fd00::/129", "/24", "10.0.0.0/-1", " 10.0.0.0/24", "10.0.0.0/24 ",
+             "010.000.000.000/24", "10.0.0.1/24", "fd00::1/120", "1.2.3.4/32", "::1/128", "10.0.0.0/22"]
+BAD_SELECTORS = ["zone:Foo:a", "zone:In:", "zone:Exists:a", "rack:Gt:abc", "rack:Gt:1+2", "-bad-:In:a", "zone:In:" + "v" * 70,
+                 "in:In:in", "notin:NotIn:notin", "zone:In:a|tier:Exists:", "0", "F.metadata.name:In:n1", "zone:DoesNotExist:x", "a/b/c:Exists:"]
+
+
+def gen_malformed(rng, n):
+    r = rng
+    cases = []
+    for i in range(n):
+        ops = []
+        pre = r.random() < 0.5
+
+        def cc(name):
+            v4 = v6 = "-"
+            k = r.random()
+            a4, l4 = r.choice(V4_RANGES)
+            a6, l6 = r.choice(V6_RANGES)
+            if k < 0.25:      # families swapped
+                v4, v6 = tok6(a6, l6), (tok4(a4, l4) if r.random() < 0.5 else "-")
+            elif k < 0.5:     # garbage / sloppy text
+                v4 = xtok(r.choice(BAD_TEXTS))
+                v6 = r.choice(["-", xtok(r.choice(BAD_TEXTS)), tok6(a6, l6)])
+            elif k < 0.6:
+                v4, v6 = "-", "-"
+            else:
+                v4 = tok4(a4, l4) if r.random() < 0.7 else "-"
+                v6 = tok6(a6, l6) if (r.random() < 0.5 or v4 == "-") else "-"
+            hb = r.choice([-3, -1, 0, 1, 4, 4, 5, 8, 9, 31, 32, 33, 64, 127, 128, 129, 2147483647, -2147483648])
+            sel = r.choice(BAD_SELECTORS + SELECTORS)
+            return "cc+ %s %s %s %d %s %s %d %d" % (name, v4, v6, hb, sel, r.choice(OTHER_FINS), r.choice([1, 1, 2]), i)
+
+        def node(name):
+            k = r.random()
+            if k < 0.3:
+                cs = xtok(r.choice(BAD_TEXTS))
+            elif k < 0.5:
+                cs = r.choice([tok4(0x0a000000, 28), tok4(0xac100000, 28), xtok("10.0.0.16/27"), xtok("010.0.0.0/28")]) + "," + tok6((0xfd000000 << 96) + 16 * r.randrange(8), 124)
+            elif k < 0.6:
+                cs = tok6((0xfd000000 << 96) + 16 * r.randrange(8), 124)
+            elif k < 0.7:
+                cs = tok4(0x0a000000, r.choice([8, 16, 22, 24, 30, 32])) + "," + tok4(0x0a000100, 28)
+            else:
+                cs = "-"
+            return "n+ %s %s %s" % (name, r.choice(LABELSETS), cs)
+
+        if pre:
+            ops += [cc(nm) for nm in r.sample(CCS, r.randint(1, 3))]
+            ops += [node(nm) for nm in r.sample(NODES, r.randint(0, 3))]
+        svc1 = r.choice(["-", tok4(0x0a000000, 26), tok6(0xfd000000 << 96, 122), tok4(0, 0)])
+        svc2 = r.choice(["-", "-", tok6(0xfd000000 << 96, 124), tok4(0x0a000100, 30)])
+        ops += ["construct %s %s -" % (svc1, svc2), "start"]
+        for _ in range(r.randint(4, 14)):
+            k = r.random()
+            if k < 0.3:
+                ops += [cc(r.choice(CCS)), "dc", "pc ok"]
+            elif k < 0.6:
+                ops += [node(r.choice(NODES)), "dn", "pn ok"]
+            elif k < 0.7:
+                ops += ["n- " + r.choice(NODES), r.choice(["dn", "dnt"])]
+            elif k < 0.8:
+                ops += ["cc- " + r.choice(CCS), "dc", "pc ok"]
+            else:
+                ops += [r.choice(["pn ok", "pc ok", "tick", "dn", "dc", "rn", "rc", "nd " + r.choice(NODES)])]
+        if r.random() < 0.3:
+            ops += ["crash", "construct %s %s -" % (svc1, svc2), "start", "pn ok", "pc ok"]
+        cases.append(("mal%d" % i, ops))
+    return cases
